@@ -778,6 +778,14 @@ class Executor:
         if z3.is_false(z):
             return False
         if self.dry:
+            # type-inference run: no solver calls; a condition already assumed on this path (by the split that re-executes the
+            # statement) is decided syntactically
+            nz = z3.Not(z)
+            for h in reversed(st.pc[-8:]):
+                if h.eq(z):
+                    return True
+                if h.eq(nz):
+                    return False
             raise NeedSplit(z)
         if self.entails(st, z, 1000):
             return True
@@ -1169,6 +1177,9 @@ class Executor:
             outs = [(s, NORMAL)]
         finally:
             self.dry, self.npaths = saved
+        if os.environ.get("PYVC_DEBUG"):
+            print(f"[dry] loop at line {node.lineno}: {len(outs)} outcomes {[o.kind for _, o in outs]}; untyped {untyped} -> "
+                  f"{[[getattr(s2.env.get(n), 'esort', None) for n in untyped] for s2, _ in outs]}")
         for s2, _ in outs:
             for n in untyped:
                 v2, v = s2.env.get(n), st.env[n]
@@ -1367,6 +1378,15 @@ class Executor:
             for t in emit_names:
                 for kind, val in s_i.env[t].recording:
                     emissions[t].append((cond, kind, val))
+        # totality: every element takes one of the explored paths, so the facts those paths carry (callee postconditions, library
+        # axioms) hold for every element - needed when the emitted collection is used negatively (`all(...)`, emptiness)
+        path_conds = []
+        for s_i, _ in outs:
+            cond = z3.And(*s_i.pc[base:]) if len(s_i.pc) > base else z3.BoolVal(True)
+            fr = [c for c in self.fresh_consts_in(cond, c0) if not any(c.eq(q) for q in xs)]
+            path_conds.append(z3.Exists(fr, cond) if fr else cond)
+        if path_conds and not all(z3.is_true(z3.simplify(c)) for c in path_conds):
+            st.assume(z3.ForAll(list(xs), z3.Implies(it.mem[x], z3.Or(*path_conds))))
         for t, ems in emissions.items():
             if not ems:
                 continue
@@ -1777,6 +1797,9 @@ class Executor:
                     o = a if b.mem is None else b
                     return z3.BoolVal(True) if o.mem is None else z3.Not(nonempty(o.mem, o.esort))
                 return seteq(a.mem, b.mem, a.esort)
+            if a.kind == b.kind and a.kind in ("list", "tuple") and (a.items == [] or b.items == []):
+                o = b if a.items == [] else a   # comparison with the empty list / tuple literal: emptiness
+                return z3.BoolVal(True) if o.mem is None else z3.Not(nonempty(o.mem, o.esort))
             raise Unsupported("list equality")
         if isinstance(a, TupleV) and isinstance(b, TupleV):
             if len(a.items) != len(b.items):
@@ -1813,6 +1836,9 @@ class Executor:
             return container.dom[z3_of(item)]
         if isinstance(container, Scalar) and isinstance(container.z.sort(), z3.ArraySortRef):
             return container.z[z3_of(item)]
+        if isinstance(container, Scalar) and str(container.z.sort()) == "NodeSequence":
+            from .lib import p_on
+            return p_on(container.z, z3_of(item))
         if isinstance(container, Scalar) and container.z.sort() == Opaque:
             iz = z3_of(item)
             return z3.Function(f"opaque_contains_{iz.sort()}", Opaque, iz.sort(), B)(container.z, iz)
@@ -2062,6 +2088,21 @@ class Executor:
             for c in self.fresh_consts_in(f, c0):
                 if not any(c.eq(b) for b in bound + more):
                     more.append(c)
+        if extra:
+            # the facts were derived for an arbitrary element under the guards evaluated before them (callee postconditions whose
+            # preconditions were obliged under those guards, library axioms): by generalisation they hold for every such element -
+            # needed when the comprehension is used negatively (e.g. "no element fails the test")
+            seen_conds, facts = [], []
+            for a in added:
+                if any(a.eq(c) for c in conds):
+                    seen_conds.append(a)
+                    continue
+                facts.append(a)
+                mf = [c for c in more if any(c.eq(k) for f in facts for k in self.fresh_consts_in(f, c0))]
+                body = z3.And(*facts)
+                if mf:
+                    body = z3.Exists(mf, body)
+                st.assume(z3.ForAll(bound, z3.Implies(z3.And(*seen_conds) if seen_conds else z3.BoolVal(True), body)))
         y = fresh("y", ez.sort())
         if ident is not None and ez.eq(ident) and not more and len(bound) == 1:
             mem = z3.Lambda([ident], z3.And(*body_conds))
@@ -2748,6 +2789,11 @@ class Executor:
                     pf = contract.post(self, s, s.args, self.cold, res)
                     if isinstance(pf, dict):
                         for pname, pform in pf.items():
+                            if pname.startswith("def."):
+                                # definition of a ghost function symbol naming this function's result (used by callers to speak about
+                                # the result for *all* arguments): nothing to prove here - it is conservative because another clause
+                                # of the same postcondition pins the result to a formula over the same arguments
+                                continue
                             ob = self.oblige(s, pform, f"post.{pname}")
                             if ob is not None and pname.startswith("lemma."):
                                 ob.hyps = []  # a lemma about the specification itself: proved from nothing
